@@ -2,12 +2,18 @@ import NemoVerif.Drive.Common
 import NemoVerif.Generated.C16
 import NemoVerif.Models.GenLog
 import NemoVerif.Models.PipelineOpts
+import NemoVerif.Models.RailsInterp
+import NemoVerif.Generated.LlmFlowsV1
 
 /-
   Driver for C16.  Requests:
     {"m":"C16.genlog","log":[ev,…]}                       → GenLog.compute on the generated constants
     {"m":"C16.turn","cfg":{…},"opts":null|[cats],"user":s,"bot":null|s,"dialog":{…}}
                                                           → PipelineOpts.turn on the generated guards, plus GenLog.compute of its log
+    {"m":"C16.interp","input":[irail,…],"output":[irail,…],"opts":null|[cats],"user":s,"bot":null|s,"llm_text":s,"refusal":s}
+                                                          → RailsInterp.drive: the loop of `generate_events` around the interpreter model
+                                                            (V1Interp) on the GENERATED llm_flows.co program + rail sub-flows of the shipped
+                                                            shapes; irail = {"name","action","kind":"check"|"append"|"replace","needles":[…]|"text":s}
   Event encoding = harness/impl/pipeline_opts.py::abstract_plog.
   A rail of the request is a rule table [[needle, verdict], …] (first rule whose needle occurs in the text decides,
   default accept), verdict = ["accept"] | ["reject"] | ["fault"] | ["append", t] | ["replace", t].
@@ -177,8 +183,69 @@ def outToJson : Option PipelineOpts.Out → Json
       ("skip_after", .bool o.skipAfter),
       ("genlog", genlogToJson (compute K o.log))]
 
+
+/-! ### `C16.interp`: the interpreter model on the generated program -/
+
+section Interp
+open NemoVerif.V1Interp NemoVerif.RailsInterp
+
+def irailOfJson (j : Json) : Except String IRail := do
+  let name ← (← j.getObjVal? "name").getStr?
+  let action ← (← j.getObjVal? "action").getStr?
+  match optStr j "kind" with
+  | some "check" =>
+    let ns ← (← (← j.getObjVal? "needles").getArr?).toList.mapM fun e => e.getStr?
+    pure { name := name, action := action, kind := .check fun t => !(ns.any fun n => isInfixL n.toList t.toList) }
+  | some "append" => let t ← (← j.getObjVal? "text").getStr?; pure { name := name, action := action, kind := .rewrite fun s => s ++ t }
+  | some "replace" => let t ← (← j.getObjVal? "text").getStr?; pure { name := name, action := action, kind := .rewrite fun _ => t }
+  | _ => throw "bad irail kind"
+
+def vToJson : V → Json
+  | .none => .null | .bool b => .bool b | .int i => Json.num (JsonNumber.fromInt i) | .str s => .str s
+  | .strs l => Json.arr (l.map Json.str).toArray
+
+/-- an event of the model history as [type, detail] (detail: action name / intent / sorted context keys / flow_id / text) -/
+def eventToJson : Event → Json
+  | .userIntent i => Json.arr #["UserIntent", .str i]
+  | .botIntent i => Json.arr #["BotIntent", .str i]
+  | .actionFinished n _ => Json.arr #["InternalSystemActionFinished", .str n]
+  | .contextUpdate d => Json.arr #["ContextUpdate", Json.arr ((d.map (·.1)).toArray.qsort (· < ·) |>.map Json.str)]
+  | .startAction => Json.arr #["StartInternalSystemAction"]
+  | .hidePrevTurn => Json.arr #["hide_prev_turn"]
+  | .other ty ps => Json.arr #[.str ty, Json.mkObj (ps.map fun kv => (kv.1, vToJson kv.2))]
+
+def obsToJson : Obs → Json
+  | .railCall c i n t => Json.arr #["rail", .str c, Json.num (JsonNumber.fromNat i), .str n, .str t]
+  | .llmCall => Json.arr #["llm"]
+  | .utter t => Json.arr #["utter", .str t]
+
+def interpOpts (j : Json) : Except String (Option (Bool × Bool × Bool × Bool)) := do
+  match ← optsOfJson j with
+  | none => pure none
+  | some o => pure (some (o.input, o.dialog, o.retrieval, o.output))
+
+def handleInterp (j : Json) : Except String Json := do
+  let rails (k : String) : Except String (List IRail) := do
+    match j.getObjVal? k with
+    | .ok (.arr a) => a.toList.mapM irailOfJson
+    | _ => pure []
+  let s : Setup := { input := ← rails "input", output := ← rails "output", refusal := (optStr j "refusal").getD "refused",
+                     llmText := (optStr j "llm_text").getD "" }
+  let o ← interpOpts ((j.getObjVal? "opts").toOption.getD .null)
+  let user ← (← j.getObjVal? "user").getStr?
+  let bot := optStr j "bot"
+  let H0 := initialHistory o user bot
+  match drive s (s.cfgs Generated.LlmFlowsV1.flows) s.config 600 H0 [] with
+  | .done tr H => pure (Json.mkObj [("res", "ok"), ("trace", Json.arr (tr.map obsToJson).toArray),
+      ("events", Json.arr ((H.drop H0.length).map eventToJson).toArray)])
+  | .stuck why tr => pure (Json.mkObj [("res", .str ("stuck: " ++ why)), ("trace", Json.arr (tr.map obsToJson).toArray)])
+  | .oof => pure (Json.mkObj [("res", "out-of-fuel")])
+
+end Interp
+
 def handle (op : String) (j : Json) : Except String Json := do
   match op with
+  | "interp" => handleInterp j
   | "genlog" =>
     let a ← (← j.getObjVal? "log").getArr?
     let log ← a.toList.mapM evOfJson
